@@ -213,8 +213,11 @@ func (o *orch) spawnWorker(e *props.Engine, w, attempt int, start, stride, limit
 		o.recordRace(e, runIdx, stderr.String())
 		return runIdx + stride, false
 	}
-	if strings.Contains(tail, "HANG run=") {
-		kind = "hang"
+	if strings.Contains(stderr.String(), "HANG run=") {
+		kind = "hang:" + hangDetail(stderr.String())
+		if i := strings.Index(tail, "\n\ngoroutine "); i > 0 {
+			tail = tail[:i]
+		}
 	} else if strings.Contains(tail, "out of memory") || strings.Contains(tail, "cannot allocate memory") {
 		kind = "out-of-memory"
 	} else if strings.Contains(tail, "stack exceeds") || strings.Contains(tail, "stack overflow") {
@@ -305,6 +308,36 @@ func (o *orch) recordRace(e *props.Engine, runIdx uint64, report string) {
 	o.mu.Lock()
 	o.races = append(o.races, VRec{Class: c, Msg: rf.Msg, Replay: path, Run: runIdx, Engine: e.Name})
 	o.mu.Unlock()
+}
+
+// hangDetail finds, in the watchdog's goroutine dump, the goroutine that was
+// executing the run (it has core.Execute or a kernel task on its stack) and
+// attributes the hang like a panic: orb function, or dep:<package>.
+func hangDetail(dump string) string {
+	blocks := strings.Split(dump, "\n\ngoroutine ")
+	for _, b := range blocks {
+		if !strings.Contains(b, "verif/sim/core.Execute") && !strings.Contains(b, "verif/sim/kernel.") {
+			continue
+		}
+		if strings.Contains(b, "runtime.Stack") {
+			continue // the watchdog itself
+		}
+		var funcs []string
+		for _, ln := range strings.Split(b, "\n") {
+			if ln == "" || ln[0] == '\t' || ln[0] == ' ' || !strings.Contains(ln, "(") {
+				continue
+			}
+			fn := ln[:strings.LastIndex(ln, "(")]
+			if strings.HasPrefix(fn, "verif/sim/") || strings.HasPrefix(fn, "main.") {
+				break
+			}
+			funcs = append(funcs, fn)
+		}
+		if len(funcs) > 0 {
+			return core.ClassifyStack(funcs)
+		}
+	}
+	return "unknown"
 }
 
 func readSummary(path string) *Summary {
